@@ -62,10 +62,48 @@ static void foreign_normaliser(struct res *r) {
     res_sample(r, "identity u8_nfc / u8_nfkd injected: 10 languages x 3 spellings x both decoders, encode, crypt");
 }
 
+static void clock_readings(struct res *r) {
+    /* a clock that reads differently every time it is asked: however often create consults it, the birthday is that of a value it returned */
+    { static const uint64_t RD[][3] = { { R_EPOCH + 100 * R_STEP + 9, R_EPOCH + 100 * R_STEP + 10, 5 }, { R_EPOCH + 99 * R_STEP + R_STEP - 1, R_EPOCH + 100 * R_STEP, R_EPOCH + 101 * R_STEP + 1 },
+                                        { R_EPOCH + 7 * R_STEP, UINT64_MAX, R_EPOCH + 900 * R_STEP }, { 12345, R_EPOCH + 55 * R_STEP + 1, R_EPOCH + 56 * R_STEP + 1 }, { R_EPOCH + 300 * R_STEP + 5, R_EPOCH - 1, 0 } };
+      for (unsigned q = 0; q < sizeof RD / sizeof *RD; q++) { memcpy(E.clock_seq, RD[q], sizeof RD[q]); E.clock_seq_n = 3; E.clock_seq_i = 0; env_clear_log(); memset(E.tape[0], 0x21 + (int)q, 32);
+          polyseed_data *sd = NULL; int st = polyseed_create(0, &sd); r->cases++; r->calls++; char rep[120]; snprintf(rep, sizeof rep, "clockseq %u", q);
+          if (st != POLYSEED_OK) { res_viol(r, "c18:create", rep, "create failed %d", st); continue; }
+          uint64_t B = polyseed_get_birthday(sd); polyseed_free(sd); unsigned long reads = E.n_time; int okk = 0; for (unsigned long i = 0; i < reads && i < 3; i++) if (B == ref_birthday_time(ref_birthday_index(RD[q][i]))) okk = 1; if (reads > 3) okk = 1;
+          if (!okk || reads < 1) res_viol(r, "c18:tape:clock-readings", rep, "the injected clock returned %llu, %llu, %llu on successive reads (%lu made): the birthday %llu is that of none of the values read", (unsigned long long)RD[q][0], (unsigned long long)RD[q][1], (unsigned long long)RD[q][2], reads, (unsigned long long)B);
+          else { r->validated++; r->cls[0]++; } }
+      E.clock_seq_n = 0; }
+}
+
+/* the decoders hand every non-ASCII phrase to the injected NFKD: phrases typed with ideographic or no-break spaces between the words,
+ * or in full-width letters, in every language and through both decoders, must come out as the reference decoder says */
+static void decoders_normalise(struct res *r) {
+    rseed s; memset(&s, 0, sizeof s); for (int i = 0; i < 19; i++) s.secret[i] = (uint8_t)(0x33 + 17 * i); s.secret[18] &= 0x3F; s.birthday = 640; s.features = 0;
+    static const char *SEP[3] = { "\xE3\x80\x80", "\xC2\xA0", "\xE2\x80\x83" };
+    for (int li = 0; li < R_NLANG; li++) for (int v = 0; v < 4; v++) {
+        char base[2048], ph[4096]; ref_phrase(&s, li, 12, base, 0); size_t o = 0;
+        if (v < 3) { const char *sp = RL[li].sep; size_t sl = strlen(sp); for (const char *q = base; *q; ) { if (!strncmp(q, sp, sl)) { memcpy(ph + o, SEP[v], strlen(SEP[v])); o += strlen(SEP[v]); q += sl; } else ph[o++] = *q++; } ph[o] = 0; }
+        else { for (const char *q = base; *q; q++) { unsigned char ch = (unsigned char)*q; if (ch >= 'a' && ch <= 'z') { unsigned cp = 0xFF41 + (ch - 'a'); ph[o++] = (char)0xEF; ph[o++] = (char)(0x80 | (cp >> 6 & 63)); ph[o++] = (char)(0x80 | (cp & 63)); } else ph[o++] = *q; } ph[o] = 0; }
+        if (strlen(ph) >= CAP) continue;
+        for (int k = 0; k < 2; k++) {
+            polyseed_data *d = NULL; env_clear_log(); int st = k ? polyseed_decode_explicit(ph, 12, polyseed_get_lang(li), &d) : polyseed_decode(ph, 12, NULL, &d); r->calls++; r->cases++;
+            unsigned long called = E.n_nfkd; if (st == POLYSEED_OK) polyseed_free(d);
+            int want = ref_decode(ph, 12, k ? li : -1, 7, 0, CAP, NULL, NULL); int na = 0; for (const char *q = ph; *q; q++) if (*q & 0x80) na = 1;
+            char rep[64]; snprintf(rep, sizeof rep, "decnorm %d %d %d", li, v, k);
+            if (st != want && na && !called) res_viol(r, "c18:normaliser-not-consulted:decode", rep, "%s phrase typed with %s: %s returned %d (reference decoder: %d) and never called the injected NFKD function", RL[li].name_en, v == 0 ? "ideographic spaces" : v == 1 ? "no-break spaces" : v == 2 ? "em spaces" : "full-width letters", k ? "decode_explicit" : "decode", st, want);
+            else if (st != want) res_viol(r, "c18:decode-normalised", rep, "%s phrase typed with %s: %s returned %d, reference decoder %d", RL[li].name_en, v == 0 ? "ideographic spaces" : v == 1 ? "no-break spaces" : v == 2 ? "em spaces" : "full-width letters", k ? "decode_explicit" : "decode", st, want);
+            else { r->validated++; r->cls[0]++; }
+        }
+    }
+    res_sample(r, "10 languages x {U+3000, U+00A0, U+2003 separators, full-width letters} x both decoders");
+}
+
 int main(int argc, char **argv) {
     int a = common_args(argc, argv);
     ref_init(VERIF_ROOT); sec_mark_initial(); env_init(); inject(0); polyseed_enable_features(7);
     struct res *r = calloc(1, sizeof *r);
+    if (a < argc && !strcmp(argv[a], "clockseq")) { clock_readings(r); for (int i = 0; i < r->nviol && i < 4; i++) printf("REPRODUCED %s: %s\n", r->v[i].key, r->v[i].msg); return r->nviol ? 1 : 0; }
+    if (a < argc && !strcmp(argv[a], "decnorm")) { decoders_normalise(r); for (int i = 0; i < r->nviol && i < 4; i++) printf("REPRODUCED %s: %s\n", r->v[i].key, r->v[i].msg); return r->nviol ? 1 : 0; }
     if (a < argc && !strcmp(argv[a], "norm")) { foreign_normaliser(r); for (int i = 0; i < r->nviol && i < 4; i++) printf("REPRODUCED %s: %s\n", r->v[i].key, r->v[i].msg); return r->nviol ? 1 : 0; }
     if (a < argc && !strcmp(argv[a], "case")) { uint8_t t[32]; unhexn(argv[a + 1], t, 32); one(t, strtoull(argv[a + 2], NULL, 10), atoi(argv[a + 3]), r, "replay"); for (int i = 0; i < r->nviol; i++) printf("REPRODUCED %s: %s\n", r->v[i].key, r->v[i].msg); return r->nviol ? 1 : 0; }
     uint8_t t[32];
@@ -80,9 +118,11 @@ int main(int argc, char **argv) {
     memset(t, 0, 32); one(t, 0, 0, r, "zero"); memset(t, 0xFF, 32); one(t, UINT64_MAX, 7, r, "ones");
     /* the birthday comes from the injected clock at every month boundary (the second before, the first second) */
     for (long k = 0; k <= 1030; k++) { uint64_t b = R_EPOCH + (uint64_t)k * R_STEP; memset(t, (int)(k & 0xFF), 32); if (k) one(t, b - 1, (unsigned)k & 7, r, "month-boundary"); one(t, b, (unsigned)k & 7, r, "month-boundary"); }
+    clock_readings(r);
     /* distinct outputs give distinct secrets: all single-bit tapes produced pairwise different secrets (implied by equality with the tape) */
     res_sample(r, "tape with only bit b set (b=0..151), clock=epoch+5 months -> store bytes 10..28 equal the tape, top two bits of byte 18 dropped");
     out_begin(); out_part("single-bit / single-zero-bit tapes, byte-18 pairs and values, bytes beyond 19, extreme clocks, month boundaries", r, CLS, "");
+    memset(r, 0, sizeof *r); decoders_normalise(r); out_part("phrases typed with compatibility characters: the injected NFKD is consulted by both decoders", r, CLS, "");
     memset(r, 0, sizeof *r); foreign_normaliser(r); out_part("identity normalisers injected: the library adds no normalisation of its own", r, CLS, ""); out_end();
     return 0;
 }
